@@ -4,8 +4,8 @@ CONSTANTS
   TPS = 1
   Window = 2
   Expire = 3
-  Peers = {1, 2}
-  OpsM = {"dht", "mcp"}
+  Peers = {1}
+  OpsM = {"dht"}
   MaxConn = 2
   LimDht = 2
   LimMcp = 1
@@ -19,7 +19,7 @@ CONSTANTS
   MaxOps = 6
   MaxIds = 3
   MaxTasks = 6
-  RecBytes = 4
+  RecBytes = 5
   Advances = {1, 2}
   AsImplemented_SharedPeerBucket = FALSE
   AsImplemented_SwappedBurstRate = FALSE
